@@ -102,6 +102,16 @@ fn byte_to_ascii(byte: &u8) -> String {
     }
 }
 
+/// Appends the ` (escaped)` marker to an escaped rendering. The escaped rule ignores
+/// a tailing ` (no-eol)` (Cram compatibility), so a line that really ends in that
+/// text gets its closing parenthesis escaped.
+fn mark_escaped(escaped: &str) -> String {
+    match escaped.strip_suffix(" (no-eol)") {
+        Some(head) => format!("{head} (no-eol\\x29 (escaped)"),
+        None => format!("{escaped} (escaped)"),
+    }
+}
+
 /// Renders given line either with escape sequences (if it contains non-printable
 /// characters) and denoted as `(escaped)` - or as-is.
 fn escaped_expectation_ascii(line: &[u8]) -> String {
@@ -110,7 +120,7 @@ fn escaped_expectation_ascii(line: &[u8]) -> String {
     if encoded == escaped {
         encoded
     } else {
-        format!("{escaped} (escaped)")
+        mark_escaped(&escaped)
     }
 }
 
@@ -151,7 +161,7 @@ fn escaped_expectation_unicode(line: &[u8]) -> String {
     if encoded == escaped {
         encoded
     } else {
-        format!("{escaped} (escaped)")
+        mark_escaped(&escaped)
     }
 }
 
